@@ -282,3 +282,21 @@ PROPS = {
         "assumptions": STD_ASSUME_PURE + ["`usize -> u32` truncation in the `new()` constructors is outside the property's u32 quantifier"],
     },
 }
+
+# what round 9 of the seeded evaluation added to the generators and oracles (DESIGN.md §8)
+_ROUND9 = {
+    "C01": "orphan families in the closed-loop runs (a connection is dropped while its piece is Reserved): a piece must not stay Reserved with no connection fetching it; a SendHave broadcast that arrives while the connection's Init is still being answered (`H` events).",
+    "C02": "mode 7 of the end-to-end runs: an eager seeder that unchokes before it has announced anything and announces its pieces with Have afterwards; `lag` lines (a connection whose transport becomes ready after more broadcasts than the channel retains).",
+    "C03": "`exg`: extraction with piece lengths beyond the client's own default of 256 KiB (262145, 300000, 524288) and files that take more than that out of one piece, incl. an empty file; output files reported by SHA-1 and length.",
+    "C08": "handshakes whose protocol string is wrong in exactly one byte (first, middle, last) on the task scripts.",
+    "C10": "keep-alives interleaved with the blocks of a download.",
+    "C11": "`H` events: a SendHave broadcast while the connection's Init is being answered.",
+    "C12": "bitfields with spare bits set, piece counts that are multiples of 8; an error returned by the manager's command handler counts as a panic of the manager; oracle (v): nothing picked although an eligible piece exists.",
+    "C14": "a timer tick that changes a choke flag without any broadcast is a T3 violation.",
+    "C15": "integers around every power of ten up to 10^19 and dictionaries with duplicate keys.",
+    "C17": "udp:// and wss:// announce URLs, BEP12 announce-list decoys, an `info` key nested as a value.",
+    "C18": "announce URLs with blanks and with query keys that contain the client's own parameter names; `sreq`: the request the real session sends.",
+    "C19": "`retry <k>`: k tracker failures in a row under a real-clock watchdog (k in {1,5,130,random}); replies whose length prefixes cannot be backed by the data (as values of an extra key); long multi-byte failure reasons.",
+}
+for _k, _v in _ROUND9.items():
+    PROPS[_k]["rule"] += " Round 9: " + _v
